@@ -147,6 +147,46 @@ def datagram_histories(run, r, uniq, n_per_front, fronts=('sync-udp', 'tw-udp'),
                               % (front, k, per[k].hex()[:80] if k is not None else '-', want[k].hex()[:80] if k is not None else '-', '; final store differs' if k is None else ''))
 
 
+def udp_hostile(run, r, n, gen_layout, probe_reads):
+    """C12 behind a real UDP socket (the real threaded sync UDP server, serve_forever in a thread; multi-unit context so that the
+    unit filter is on): runts, junk and truncated frames as datagrams, then a probe - the serving loop must still be there"""
+    for i in range(n):
+        layout = gen_layout(r)
+        layout['single'] = bool(i % 2)
+        repo.reset_globals()
+        try:
+            srv, blocks = start('sync-udp', 'tcp', layout, {})
+        except Exception as e:  # noqa
+            run.watchdogs += 1
+            run.observed['loopback_start_error'] = repr(e)[:200]
+            continue
+        addr, probes = probe_reads('tcp', layout, 1)
+        probe = probes[0][1]
+        junk = [bytes(r.randrange(256) for _ in range(k)) for k in (1, 2, 3, 5, 6, 7)] + [probe[:4], probe[:9], bytes(r.randrange(256) for _ in range(r.randint(8, 300)))]
+        r.shuffle(junk)
+        try:
+            RN.udp_exchange(srv.port, junk, expect=[0] * len(junk), wait=0.3)
+            got = []
+            for attempt in range(3):
+                got = RN.udp_exchange(srv.port, [probe], expect=[1], wait=1.5)
+                if got:
+                    break
+            alive = srv.th.is_alive()
+        finally:
+            srv.stop()
+        run.count('loopback_udp_hostile')
+        ok = bool(got) and got[0][1][:2] == probe[:2]
+        run.case(h64(('loopback-udp-hostile', repr(junk))), True,
+                 sample={'kind': 'real UDP socket, hostile datagrams', 'front': 'sync-udp', 'datagrams': [j.hex()[:24] for j in junk][:6],
+                         'verdict': 'probe answered' if ok else 'probe not answered'}, sample_class=('loopback-udp-hostile',))
+        if not ok:
+            if alive:
+                run.watchdogs += 1                      # the serving thread is there; the answer may just be late
+                continue
+            run.violation('loopback-udp-hostile:sync-udp', {'front': 'sync-udp', 'framing': 'tcp', 'layout': layout, 'reads': junk + [probe], 'class': 'udp-runts', 'loopback': True},
+                          'after the datagrams %r the serving thread of the real UDP server has ended and a probe is not answered' % ([j.hex()[:16] for j in junk],))
+
+
 def hostile(run, r, uniq, n_per_front, gen_layout, hostile_stream, split, classes, unjustified_changes, probe_reads):
     """C12 over real sockets: hostile bytes on one connection, then a probe on a fresh connection; the serving
     thread / loop / reactor must still be alive and answer from the actual store"""
